@@ -58,8 +58,9 @@ extern "C" unsigned vf_live_heap(void);
 // scheduling point; natively they drive the ucontext scheduler of vf_native.cpp.
 struct VMutex {
 	// the stores make a lock/unlock of a destroyed mutex a memory error (engine: use after free; native: ASan)
-	void lock() { vf_mutex_lock(this); pad = 1; }
-	void unlock() { pad = 0; vf_mutex_unlock(this); }
+	// noinline: the policy's own bookkeeping must not look like eventpp code to the automatic scheduling points
+	__attribute__((noinline)) void lock() { vf_mutex_lock(this); pad = 1; }
+	__attribute__((noinline)) void unlock() { pad = 0; vf_mutex_unlock(this); }
 	volatile char pad;
 };
 
@@ -67,11 +68,13 @@ template <typename T>
 struct VAtomic {
 	VAtomic() noexcept = default;
 	constexpr VAtomic(T v) noexcept : value(v) {}
-	void store(T v, std::memory_order = std::memory_order_seq_cst) noexcept { vf_atomic_point(this); value = v; }
-	T load(std::memory_order = std::memory_order_seq_cst) const noexcept { vf_atomic_point(this); return value; }
-	T exchange(T v, std::memory_order = std::memory_order_seq_cst) noexcept { vf_atomic_point(this); T p = value; value = v; return p; }
-	T operator++() noexcept { vf_atomic_point(this); return ++value; }
-	T operator--() noexcept { vf_atomic_point(this); return --value; }
+	// each operation is one atomic step: a scheduling point (the hook) followed by plain code the engine never preempts
+	// (noinline keeps it out of eventpp's functions, where plain accesses to shared objects are automatic scheduling points)
+	__attribute__((noinline)) void store(T v, std::memory_order = std::memory_order_seq_cst) noexcept { vf_atomic_point(this); value = v; }
+	__attribute__((noinline)) T load(std::memory_order = std::memory_order_seq_cst) const noexcept { vf_atomic_point(this); return value; }
+	__attribute__((noinline)) T exchange(T v, std::memory_order = std::memory_order_seq_cst) noexcept { vf_atomic_point(this); T p = value; value = v; return p; }
+	__attribute__((noinline)) T operator++() noexcept { vf_atomic_point(this); return ++value; }
+	__attribute__((noinline)) T operator--() noexcept { vf_atomic_point(this); return --value; }
 	T value;
 };
 
